@@ -14,7 +14,7 @@ for d in sorted(glob.glob(os.path.join(root, 'C??', 'out', 'm?'))):
         title = ''
         for f in glob.glob(os.path.join(d, 'README*')):
             lines = [l.strip() for l in open(f) if l.strip() and not set(l.strip()) <= set('=-')]
-            if lines: title = re.sub(r'^(C\d\d )?[Ss]eeded bug m\d\s*(--|:|-|\u2014)?\s*', '', lines[0])
+            if lines: title = re.sub(r'^(C\d\d )?[Ss]eeded (?:bug|change) m\d\s*(--|:|-|\u2014)?\s*', '', lines[0])
         needs[key] = title or '(see README)'
 keys = [k for k in sorted(needs) if re.match(r'C\d\d-%s\d$' % label, k)]
 def load(f):
